@@ -10,8 +10,8 @@ BINARY_ARITH = {  # ArithmeticType
     "+": "ADD(<a>, <b>)",
     "-": "SUB(<a>, <b>)",
     "*": "MUL(<a>, <b>)",
-    "/": "DIV(<a>, <b>)",
-    "%": "MOD(<a>, <b>)",
+    "/": {True: "SDIV(<a>, <b>)", False: "DIV(<a>, <b>)"},  # keyed by the signedness of the (common) operand type, C11 6.5.5
+    "%": {True: "SMOD(<a>, <b>)", False: "MOD(<a>, <b>)"},
 }
 BITOPS = {  # BitOperationType ; value may depend on signedness of the LEFT operand (C11 6.5.7p5 + QEMU convention)
     "&": "LOGAND(<a>, <b>)",
@@ -107,7 +107,7 @@ ATTR_STRINGS = {
 # bv = bitvector; result, args
 SORTS = {
     "ADD": ("bv", ["bv", "bv"], "eqw"), "SUB": ("bv", ["bv", "bv"], "eqw"), "MUL": ("bv", ["bv", "bv"], "eqw"),
-    "DIV": ("bv", ["bv", "bv"], "eqw"), "MOD": ("bv", ["bv", "bv"], "eqw"),
+    "DIV": ("bv", ["bv", "bv"], "eqw"), "MOD": ("bv", ["bv", "bv"], "eqw"), "SDIV": ("bv", ["bv", "bv"], "eqw"), "SMOD": ("bv", ["bv", "bv"], "eqw"),
     "LOGAND": ("bv", ["bv", "bv"], "eqw"), "LOGOR": ("bv", ["bv", "bv"], "eqw"), "LOGXOR": ("bv", ["bv", "bv"], "eqw"),
     "LOGNOT": ("bv", ["bv"], None), "NEG": ("bv", ["bv"], None),
     "SHIFTL0": ("bv", ["bv", "bv"], None), "SHIFTR0": ("bv", ["bv", "bv"], None), "SHIFTRA": ("bv", ["bv", "bv"], None),
